@@ -208,6 +208,19 @@ def gen_cases(rng, tier, wd):
             if cut < len(f) - doff:
                 for ops in ("v", "fd", "f", "dv"):
                     out.append(("lastblocks-cut", f[:doff + cut], ops, None))
+    # (c3) chunks whose stored bytes ARE zeros (entirely, or in their first 32 KiB block): they look like never-written or
+    # wiped extents but carry the right checksum and must be recognised as valid
+    for ht, cht, fl in ((1, 1, 0), (1, 3, 4)) if quick else ((1, 1, 0), (1, 3, 4), (0, 2, 0), (2, 1, 4)):
+        chunks = [bytes(5), rng.rbytes(20), bytes(32768), bytes(40000) + rng.rbytes(50), rng.rbytes(9), bytes(1)]
+        if fl & 4 and cht in (0, 3):
+            cht = 1
+        f, h = zckfmt.build_file(chunks, ht=ht, cht=cht, flags=fl)
+        doff = len(h.build())
+        out.append(("zero-chunks", f, "vdr", b"".join(chunks)))
+        for ops in ("f", "fv", "dvf"):
+            out.append(("zero-chunks", f, ops, b"".join(chunks)))
+        for cut in (doff + 5 + 20 + 32768, doff + 5 + 20 + 32768 + 40000, doff + 5 + 20 + 100, len(f) - 1):
+            out.append(("zero-chunks-cut", f[:cut], rng.choice(["v", "f", "fd"]), None))
     # (d) crafted index entries
     f, h, doff, ext, data = base_file(rng, 3, 1, 3, 0, 0)
     body = f[doff:]
